@@ -60,4 +60,12 @@ CHECKS = {
              "thorough": {"checks": 50000, "shards": 8, "timeout": "60m"}},
         ],
     },
+    "C03": {
+        "level": "exploration",
+        "assumptions": EXPLORATION_ASSUMPTIONS + ["handler enter/exit are stamped with a global tick taken under one mutex; a correct implementation orders the stamps through its own synchronisation, so the oracle cannot raise a false alarm"],
+        "legs": [
+            {"test": "TestC03", "quick": {"checks": 400, "timeout": "15m"},
+             "thorough": {"checks": 5000, "shards": 4, "timeout": "60m"}},
+        ],
+    },
 }
